@@ -1,0 +1,27 @@
+//go:build verif
+
+package node
+
+import (
+	"sync/atomic"
+
+	"ergo.services/ergo/gen"
+)
+
+// VerifMakeRefFrom returns the reference MakeRef produces when the node's unique counter
+// reaches the given value: the counter is set to counter-1 and the real MakeRef is called.
+func VerifMakeRefFrom(n gen.Node, counter uint64) gen.Ref {
+	nn := n.(*node)
+	atomic.StoreUint64(&nn.uniqID, counter-1)
+	return nn.MakeRef()
+}
+
+// VerifUniqID reads the node's unique counter.
+func VerifUniqID(n gen.Node) uint64 {
+	return atomic.LoadUint64(&n.(*node).uniqID)
+}
+
+// VerifNextPID reads the node's process id counter.
+func VerifNextPID(n gen.Node) uint64 {
+	return atomic.LoadUint64(&n.(*node).nextID)
+}
